@@ -63,6 +63,7 @@ def make_accumulator(I, name="acc"):
     present = z3.Const(f"{name}.present0", sym.NameSet)
     vals = z3.Const(f"{name}.vals0", z3.ArraySort(sym.Name, sym.R))
     acc.fields["_numeric_partials"] = SDict(base=NumBase(present, vals))
+    I.heap_log.append(("store", acc, "_numeric_partials", "<harness>", True, id(acc.fields["_numeric_partials"])))
     return acc
 
 
